@@ -158,7 +158,10 @@ def gen_circuit(rng, quick, with_meas=True, nmax=4, allow_wrapper=True):
             t, r = rng.choice(regs)
             if allow_wrapper and rng.random() < 0.15:
                 kinds = [rng.choice(ONEQ[:6]) for _ in range(rng.randint(1, 3))]
-                ops_.append(("wrap", kinds, r, t, [gen_noise(rng) for _ in kinds]))
+                if rng.random() < 0.3:
+                    ops_.append(("wrap1", kinds, r, t, gen_noise(rng, p_none=0.0)))
+                else:
+                    ops_.append(("wrap", kinds, r, t, [gen_noise(rng) for _ in kinds]))
             else:
                 ops_.append((rng.choice(ONEQ), r, t, gen_noise(rng)))
         elif w < 0.8 or not with_meas:
@@ -169,11 +172,11 @@ def gen_circuit(rng, quick, with_meas=True, nmax=4, allow_wrapper=True):
             ops_.append((rng.choice(["cnot", "cz"]), r1, t1, r2, t2, n0, n1))
         elif w < 0.88:
             t, r = rng.choice(regs)
-            ops_.append(("measz", r, t, 0, ("N",)))
+            ops_.append(("measz", r, t, rng.randrange(2), ("N",)))
         else:
             (t1, r1), (t2, r2) = rng.sample(regs, 2)
-            ops_.append((rng.choice(["mcr", "ccnot", "ccz"]), r1, t1, r2, t2, 0, ("N",), ("N",)))
-    return dict(ne=ne, np=npn, nc=1, ops=ops_)
+            ops_.append((rng.choice(["mcr", "ccnot", "ccz"]), r1, t1, r2, t2, rng.randrange(2), ("N",), ("N",)))
+    return dict(ne=ne, np=npn, nc=2, ops=ops_)
 
 
 def build(spec, transform=lambda s: s, clean=False):
@@ -195,6 +198,9 @@ def build(spec, transform=lambda s: s, clean=False):
         if k == "wrap":
             _, kinds, r, t, noises = o
             c.add(ops.OneQubitGateWrapper([cls[x] for x in kinds], register=r, reg_type=t, noise=[nz(s) for s in noises]))
+        elif k == "wrap1":
+            _, kinds, r, t, noise = o
+            c.add(ops.OneQubitGateWrapper([cls[x] for x in kinds], register=r, reg_type=t, noise=nz(noise)))
         elif k in ONEQ:
             c.add(cls[k](register=o[1], reg_type=o[2], noise=nz(o[3])))
         elif k in ("cnot", "cz"):
@@ -711,6 +717,19 @@ def check_unwrap_identify(res, drv, rng):
     if got != want:
         res.violation("unwrap:noise-misplaced", "unwrap() does not keep each sub-operation with its own noise in application order",
                       input=dict(kinds=kinds, noise=repr(specs)), got=got, want=want)
+    # unwrap with a single (non-list) noise: the noise rides on an extra Identity, first or last in application order
+    one = gen_noise(rng, p_none=0.0)
+    w1 = ops.OneQubitGateWrapper([cls[k] for k in kinds], register=0, reg_type="p", noise=mk_noise(one))
+    got1 = ",".join(f"{KIND_OF_CLASS[type(o).__name__]}={noise_token(o.noise)}" for o in w1.unwrap())
+    rep1 = drv.ask(f"noise.unwrap single=1 ops={'.'.join(kinds)} noise={spec_token(one)}")
+    res.evaluations += 1
+    if rep1.get("seq") != got1:
+        res.exact_break("OneQubitGateWrapper.unwrap[single]", input=dict(kinds=kinds, noise=repr(one)), impl=got1, model=rep1["_raw"][:300])
+    app = [f"{k}=N" for k in reversed(kinds)]
+    want1 = ",".join(app + [f"identity={spec_token(one)}"] if one[2] else [f"identity={spec_token(one)}"] + app)
+    if got1 != want1:
+        res.violation("unwrap:noise-misplaced", "unwrap() of a wrapper with one noise does not place it on the side its 'After gate' flag asks for",
+                      input=dict(kinds=kinds, noise=repr(one)), got=got1, want=want1)
     # _identify_noise / _wrap_noise
     mp_spec = {}
     for k in ONEQ[:6] + ["cnot", "cz"]:
